@@ -19,7 +19,7 @@ from cloudsync import CloudSync
 from cloudsync.smartsync import SmartCloudSync
 
 from ..core import ok, violation, invalid
-from ..gen import draw_cfg, gen_history, envelope_ok
+from ..gen import draw_cfg, gen_history, envelope_ok, FLAVOURS
 from ..hist import HistoryRun, Stop
 from ..engine import InvalidTrace
 from .. import oracles as O
@@ -153,7 +153,8 @@ def monitor_off():
 def budget(tier):
     q = tier == "quick"
     return [{"workers": 16, "examples": 120 if q else 3000},
-            {"part": "threads", "workers": 16, "examples": 5 if q else 120}]
+            {"part": "threads", "workers": 16, "examples": 5 if q else 120},
+            {"part": "queue", "workers": 16, "examples": 30 if q else 1000}]
 
 
 def gen(d, tier):
@@ -394,4 +395,87 @@ def run_threads(trace):
         case.close()
 
 
-PARTS = {"threads": (gen_threads, run_threads)}
+# ----------------------------------------------------------------------------- queue: walk() while a drain is running
+def gen_queue(d, tier):
+    L, R = d.choice(FLAVOURS)
+    side = d.int(0, 1)
+    n = d.int(1, 6)
+    return {"cfg": {"L": L, "R": R, "salt": d.int(0, 7)}, "side": side, "first": n, "second": d.int(1, 3),
+            "inject_after": d.int(1, n + 1), "folder": d.bool()}
+
+
+def run_queue(trace):
+    """The application calls CloudSync.walk() (which queues events on the event manager) at the very moment that
+    manager is half way through draining an earlier walk -- the harness owns that moment: it makes the second walk from
+    inside the k-th _process_event of the drain, which is what another thread queueing at that instant amounts to.
+    The side's ordinary events are held back, so the engine knows the new files from the walks only.  Whatever was
+    queued has to be applied: every walked file reaches the other side."""
+    cfg = trace["cfg"]
+    side, dest = trace["side"], 1 - trace["side"]
+    r = HistoryRun({"cfg": cfg, "acts": []})
+    if r.crash:
+        return violation("engine_construct", r.crash)
+    case = r.case
+    try:
+        held = []
+
+        def hold(case_, prov, orig):
+            if prov._vf_side == side:
+                held.extend(orig(prov))
+                return iter(())
+            return orig(prov)
+        case.settle()
+        case.event_mangler = hold
+        base = "/w" if trace["folder"] else ""
+        if trace["folder"]:
+            case.user(side, "mkdir", "/w")
+        names1 = [base + "/f%d" % i for i in range(trace["first"])]
+        names2 = [base + "/g%d" % i for i in range(trace["second"])]
+        for p in names1:
+            case.user(side, "create", p, "one" + p)
+        cs = case.cs
+        em = cs.emgrs[side]
+
+        def walk():
+            case.in_engine = True
+            try:
+                cs.walk(side)
+            finally:
+                case.in_engine = False
+        walk()
+        orig_pe = em._process_event
+        count = [0]
+
+        def pe(event, from_walk=False):
+            ret = orig_pe(event, from_walk=from_walk)
+            count[0] += 1
+            if count[0] == trace["inject_after"]:
+                was = case.in_engine
+                case.in_engine = False
+                for p in names2:
+                    case.user(side, "create", p, "two" + p)
+                case.in_engine = was
+                cs.walk(side)           # "another thread" queues while this drain is in progress
+            return ret
+        em._process_event = pe
+        who = "EL" if side == 0 else "ER"
+        r.do_step(who)
+        injected = count[0] >= trace["inject_after"]
+        em._process_event = orig_pe
+        rounds = case.settle()
+        e = O.escaped(case)
+        if e:
+            return violation("exception_escaped", e)
+        if rounds is None:
+            return violation("stall", "engine not quiet after a walk")
+        got = case.snap(dest)
+        missing = [p for p in names1 + (names2 if injected else []) if p not in got]
+        if missing:
+            return violation("queued_events_applied", "files announced to the engine by CloudSync.walk() never reached the other side: %s (second walk queued during the drain after event #%d: %s)" % (
+                missing, trace["inject_after"], injected))
+        return ok(nontrivial=injected, labels=["queue", "injected" if injected else "not_injected"])
+    finally:
+        case.close()
+
+
+PARTS = {"threads": (gen_threads, run_threads), "queue": (gen_queue, run_queue)}
